@@ -40,6 +40,23 @@ Three further families, each present in a share of the runs:
   mode the sender follows the same schedule (its own delimiter / the limit it
   stays within change after it has sent message k).
 
+Two families of re-entrant callbacks (round 6), scripted like the other callback actions:
+
+* "self-resume": the callback of message k calls pauseProducing() and then resumeProducing() before it returns (the
+  work the pause was to cover completed synchronously - an already-fired Deferred, a cache hit).  Classes with
+  pause/resume only; stream and send mode, split and whole delivery.  The reference is unaffected: every message is
+  still due exactly once, in stream order.
+* "feed" (stream mode): the connection is a synchronous in-memory pipe and the application reacts to message k by
+  writing to a peer whose next bytes come back AT ONCE, i.e. the next piece of the stream (plus whatever the harness
+  held back) is handed to dataReceived from inside the callback.  The pipe keeps the stream a FIFO: this happens only
+  when an independent reading of the bytes handed over so far (the reference framer) says they END with message k, so
+  that nothing of the running delivery can be left unconsumed; otherwise the bytes follow after the running delivery
+  as usual.  In these runs most grammar items end a delivery (a peer writes message by message).  The receiver must
+  have finished its book-keeping for message k before it calls out: the nested delivery continues with message k+1.
+
+MAX_LENGTH = 0 (only the empty message is within the limit) is a value of every class - for NetstringReceiver in a
+share of its runs (NETSTRING_ZERO_P).
+
 Oracle: models/framing.py (whole-stream reference framers).  Checked: the
 observed callback sequence up to the first close request == the reference
 framing == the sequence observed when a fresh instance gets the same stream in
@@ -70,12 +87,31 @@ RECONF_P = 0.4       # share of the runs whose script may change MAX_LENGTH / th
 # speed optimisation"), so a delimiter change made inside lineReceived cannot reach the rest of that delivery; the
 # statement names mode switches "where supported", so delimiter changes are scripted for LineReceiver only.
 LINEONLY_DELIM_RECONF = False
+# Round 6 families.  "self-resume": the callback of message k pauses the receiver and resumes it before it returns (the
+# work the pause was to cover finished synchronously) - pause/resume where supported.  "feed": the application answers
+# message k over a synchronous in-memory pipe and the peer's next bytes come back from inside the callback; the pipe keeps
+# the stream a FIFO, so the nested delivery happens only when message k ends exactly where the bytes handed over so far
+# end (nothing of the running delivery can be left unconsumed - the rule of detsim.net.SyncLink); otherwise the bytes
+# arrive after the running delivery, as usual.
+SELF_RESUME_W = 2    # weight of ("pauseresume",) among the scripted callback actions of the pausable classes
+FEED_P = 0.35        # share of the stream-mode runs whose script may hold ("feed",) actions
+FEED_W = 10          # its weight in those runs
+# Found by this check and repaired in /repo 520a5fa (IntNStringReceiver.dataReceived was not re-entrant: resumeProducing()
+# from inside stringReceived, or a nested delivery, parsed the buffer again from offset 0).  The knob that kept the defect's
+# precondition out of most runs stays as a mix knob: this share of the runs of the length-prefixed classes scripts the
+# two re-entrant actions, the others keep full-length runs of everything else.
+INTN_REENTRY_P = 0.5
+# Found by this check and repaired in /repo 39163cd (NetstringReceiver._maxLengthSize: math.log10(0) raised ValueError).
+# MAX_LENGTH 0 (the empty netstring b"0:," is the one message within it) joins the values of a NetstringReceiver run - as
+# the initial value or through reconfiguration - in this share of its runs (a run that starts at 0 has little else to show).
+NETSTRING_ZERO_P = 0.3
 COMPONENTS = {
     "real": ["twisted.protocols.basic.LineReceiver", "twisted.protocols.basic.LineOnlyReceiver",
              "twisted.protocols.basic.NetstringReceiver", "twisted.protocols.basic.Int8/16/32StringReceiver",
              "twisted.protocols.basic.IntNStringReceiver (subclasses with their own structFormat/prefixLength)",
-             "sendLine/sendString", "_PauseableMixin"],
-    "stub": ["TCP transport, delivery segmentation, stalls and coalescing (detsim.net.SimTransport / Link / cut)"],
+             "sendLine/sendString", "_PauseableMixin (also pause + resume from inside a callback)"],
+    "stub": ["TCP transport, delivery segmentation, stalls and coalescing (detsim.net.SimTransport / Link / cut)",
+             "synchronous in-memory pipe that hands the next piece over from inside a message callback (SplitConn.feed)"],
 }
 RULE = ("run = one receiver class (1 run in 7: an IntNStringReceiver subclass with a tape-chosen structFormat out of 27 - "
         "byte orders < > ! = @/none, widths 8/16/32 bits, some with pad bytes - framed by that format's own reference) "
@@ -85,6 +121,12 @@ RULE = ("run = one receiver class (1 run in 7: an IntNStringReceiver subclass wi
         "(LineReceiver) from inside callback k, the reference framing everything after message k with the new values and "
         "the grammar aiming the following messages at the new limit; in 30% of the runs a second live connection of the "
         "same class with its own stream/sender, script and reference has its deliveries interleaved with the first one's; "
+        "the scripts of the pausable classes also hold self-resume actions (pauseProducing() + resumeProducing() inside "
+        "callback k); in 35% of the stream-mode runs the connection is a synchronous pipe: most grammar items end a "
+        "delivery and a 'feed' action in callback k hands the next piece to dataReceived from inside the callback when "
+        "the bytes handed over so far end exactly with message k (for the length-prefixed classes both re-entrant actions "
+        "are scripted in the INTN_REENTRY_P share of the runs only; MAX_LENGTH 0 for NetstringReceiver in the "
+        "NETSTRING_ZERO_P share - both were preconditions of genuine defects, repaired in /repo 520a5fa / 39163cd, see MUTANTS); "
         "non-trivial = the stream was cut at least once and at least one message or over-length notification was observed")
 ASSUMPTIONS = [
     "the over-length handlers keep their default behaviour (request a close), so comparison ends at the first close request",
@@ -95,6 +137,13 @@ ASSUMPTIONS = [
     "values whether or not it was already buffered",
     "delimiter changes are scripted for LineReceiver only (LineOnlyReceiver pre-splits a delivery; see LINEONLY_DELIM_RECONF)",
     "two connections of one class share nothing: each is compared with the reference framing of its own stream only",
+    "a delivery nested inside a message callback (synchronous pipe) is made only when the bytes handed over so far end "
+    "exactly with the message being delivered - judged by the reference framer, not by the receiver - so the order of "
+    "the stream is the order of the dataReceived calls whatever the receiver buffers (the rule of detsim.net.SyncLink, "
+    "as in C38); a delivery nested while part of the running one is unconsumed would make the stream order depend on "
+    "the receiver's buffering and is never made; callbacks that raise are not part of the workload (a transport drops "
+    "the connection when dataReceived raises; the statement is silent on using the receiver afterwards)",
+    "resumeProducing() is called from inside a callback only after pauseProducing() in the same callback",
     "an IntNStringReceiver subclass chooses its prefix through structFormat / prefixLength = calcsize(structFormat) as "
     "the class documents; the format holds exactly one unsigned integer of 8, 16 or 32 bits (any byte order, optional "
     "pad bytes - PAD_FORMATS); signed and 64-bit formats are not used; only messages that fit the integer are sent",
@@ -212,6 +261,7 @@ class H:
         self.pauses = 0
         self.delivery = 0         # number of the dataReceived / resumeProducing call being processed
         self.reconf_at = None     # delivery number in which the parameters were last changed
+        self.feed = None          # feed(messages so far): the synchronous pipe of this connection (SplitConn), if any
 
     def message(self, proto, kind, msg):
         sim = self.sim
@@ -231,6 +281,14 @@ class H:
             self.hpaused = True
             self.pauses += 1
             proto.pauseProducing()
+        elif act[0] == "pauseresume" and hasattr(proto, "pauseProducing"):
+            # the work the pause was to cover completed synchronously: resumed before the callback returns
+            sim.fault("self_resume_inside_callback")
+            proto.pauseProducing()
+            proto.resumeProducing()
+        elif act[0] == "feed":
+            if self.feed is not None:
+                self.feed(self.k)
         elif act[0] == "raw":
             self.need = act[1]
             proto.setRawMode()
@@ -434,8 +492,11 @@ def gen_net_stream(sim, cur):
     return bytes(out), bounds
 
 
-def gen_script(sim, kind, mode, reconf=False):
+def gen_script(sim, kind, mode, reconf=False, lens=None, reentry=True, feed=False):
+    """lens: MAX_LENGTH values a reconfiguration may choose; reentry: the re-entrant actions may be scripted
+    (("pauseresume",) for the pausable classes; ("feed",) in stream mode when feed is set)."""
     script = {}
+    lens = lens if lens is not None else maxlens(kind)
     if kind == "LineOnlyReceiver" or (kind == "NetstringReceiver" and mode == "send"):
         acts = [(("none",), 1)]
     elif kind == "NetstringReceiver":
@@ -448,6 +509,11 @@ def gen_script(sim, kind, mode, reconf=False):
         acts = [(("none",), 12), (("lose",), 1)]
     if mode == "send":
         acts = [(a, w) for a, w in acts if a[0] in ("none", "pause")]
+    if reentry and SELF_RESUME_W and any(a[0] == "pause" for a, w in acts):
+        acts.append((("pauseresume",), SELF_RESUME_W))
+    if reentry and feed and mode == "stream":
+        acts = [(a, max(w, 8) if a[0] == "none" else w) for a, w in acts]
+        acts.append((("feed",), FEED_W))
     if reconf:
         # the application re-configures the receiver from inside the callback of message k
         acts = [(a, max(w, 8) if a[0] == "none" else w) for a, w in acts]
@@ -461,7 +527,7 @@ def gen_script(sim, kind, mode, reconf=False):
         if a[0] == "raw":
             a = ("raw", sim.draw_int(1, 9, "rawlen"))
         elif a[0] == "maxlen":
-            a = ("maxlen", sim.draw_choice(maxlens(kind), "new-maxlen"))
+            a = ("maxlen", sim.draw_choice(lens, "new-maxlen"))
         elif a[0] == "delim":
             a = ("delim", sim.draw_choice(DELIMS, "new-delimiter"))
         if a[0] != "none":
@@ -498,9 +564,14 @@ def deliver_whole(sim, kind, cls, maxlen, delim, script, stream):
 
 class SplitConn:
     """One live connection that gets its stream in pieces: step() hands over the next piece (or stalls / resumes /
-    pushes while paused), finish() resumes until idle.  Several of them can be stepped alternately."""
+    pushes while paused), finish() resumes until idle.  Several of them can be stepped alternately.
 
-    def __init__(self, sim, kind, cls, maxlen, delim, script, pieces, bounds, ext_pause_p, tag, name):
+    It is also the synchronous pipe of the "feed" action: feed(k), called by the application from inside the callback of
+    its k-th message, hands over the bytes that follow in the stream (what was held back + the next piece) AT ONCE, nested
+    inside the running delivery - but only if an independent reading of the bytes handed over so far (the reference
+    framer) says that they end exactly with message k, so that the stream order is kept whatever the receiver buffers."""
+
+    def __init__(self, sim, kind, cls, maxlen, delim, script, pieces, bounds, ext_pause_p, tag, name, stream=b""):
         self.sim, self.kind, self.tag = sim, kind, tag
         self.h = H(sim, kind, maxlen, delim, script, tag)
         self.p = make_receiver(cls, self.h)
@@ -509,11 +580,16 @@ class SplitConn:
         self.p.makeConnection(self.t)
         self.pausable = hasattr(self.p, "pauseProducing")
         self.pieces = list(pieces)
+        self.step_cap = 5000
         self.bounds = frozenset(bounds)
         self.ext_pause_p = ext_pause_p
         self.i = 0
         self.held = b""
         self.offset = 0          # bytes handed to the protocol so far
+        self.depth = 0           # dataReceived calls in progress
+        self.stream, self.maxlen0, self.delim0 = stream, maxlen, delim
+        if any(a[0] == "feed" for a in script.values()):
+            self.h.feed = self.feed
 
     def more(self):
         return self.i < len(self.pieces) and not self.t.disconnecting
@@ -522,33 +598,66 @@ class SplitConn:
         """Handed-over bytes end inside a grammar item (approximation, used for a probe only)."""
         return self.offset > 0 and self.offset not in self.bounds and self.more()
 
+    def _take(self):
+        """The bytes that come next in the stream: what was held back + the next piece."""
+        data, self.held = self.held, b""
+        if self.i < len(self.pieces):
+            data += self.pieces[self.i]
+            self.i += 1
+        return data
+
+    def _hold(self):
+        if self.i < len(self.pieces):
+            self.held += self.pieces[self.i]
+            self.i += 1
+
     def _give(self, data):
         self.h.delivery += 1
         self.offset += len(data)
-        self.p.dataReceived(data)
+        self.depth += 1
+        try:
+            self.p.dataReceived(data)
+        finally:
+            self.depth -= 1
 
     def _resume(self):
         self.h.hpaused = False
         self.h.delivery += 1
         self.p.resumeProducing()
 
+    def feed(self, k):
+        """Called from inside the callback of the k-th message (k = messages delivered so far, this one included)."""
+        sim, h = self.sim, self.h
+        if self.t.disconnecting or h.hpaused or not (self.held or self.i < len(self.pieces)):
+            sim.probe("feed_nothing_to_hand_over")
+            return
+        st = {}
+        ev, _tail = reference(self.kind, self.stream[:self.offset], self.maxlen0, self.delim0, h.script, st)
+        if st.get("k") != k or st.get("pos") != self.offset or any(e[0] == "close" for e in ev):
+            # bytes of the running delivery are still unconsumed: the pipe queues the answer behind them
+            sim.probe("feed_queued_behind_running_delivery")
+            return
+        data = self._take()
+        sim.fault("nested_delivery_inside_callback")
+        if self.depth == 0:
+            sim.probe("nested_delivery_inside_resume")
+        sim.event("deliver-nested", self.tag, data)
+        self._give(data)
+
     def step(self):
         sim, h, p, t = self.sim, self.h, self.p, self.t
-        piece = self.pieces[self.i]
-        self.i += 1
-        sim.step(5000)
+        sim.step(self.step_cap)
         with sim.guard("receiver-raised", self.kind + ":" + self.tag):
             if h.hpaused:
                 what = sim.draw_weighted([("resume", 5), ("hold", 3), ("push", 1)], "while-paused")
                 if what == "hold":
-                    self.held += piece
+                    self._hold()
                     sim.fault("stall_while_paused")
                     return
                 if what == "push":
                     # a transport that had already read this piece hands it over although paused
                     sim.fault("delivery_while_paused")
-                    data, self.held = self.held + piece, b""
-                    self._give(data)
+                    self._give(self._take())
                     return
                 self._resume()
                 n = 0
@@ -558,9 +667,11 @@ class SplitConn:
                         break
                     self._resume()
                 if h.hpaused or t.disconnecting:
-                    self.held += piece
+                    self._hold()
                     return
-            data, self.held = self.held + piece, b""
+                if not (self.held or self.i < len(self.pieces)):
+                    return      # a callback run by the resume took the rest through the synchronous pipe
+            data = self._take()
             if self.tag == "split":
                 sim.event("deliver", data)
             else:
@@ -589,6 +700,11 @@ class SplitConn:
 
 def drive(sim, conns):
     """Deliver every connection's pieces; with more than one connection the tape chooses whose turn it is."""
+    # the step cap is a harness safety net, not a verdict: it scales with the work drawn (two long streams delivered a byte at a
+    # time need more than 5000 steps - seen once in 2.1 million runs of a soak, as a harness error)
+    cap = 5000 + 6 * sum(len(c.pieces) for c in conns)
+    for c in conns:
+        c.step_cap = cap
     last = None
     while True:
         live = [c for c in conns if c.more()]
@@ -605,6 +721,28 @@ def drive(sim, conns):
         c.step()
     for c in conns:
         c.finish()
+
+
+def split_at(pieces, points):
+    """The same deliveries, additionally cut at the given offsets of the stream."""
+    out = []
+    pos = 0
+    pts = sorted(set(points))
+    for piece in pieces:
+        last = 0
+        for b in pts:
+            if pos < b < pos + len(piece):
+                out.append(piece[last:b - pos])
+                last = b - pos
+        out.append(piece[last:])
+        pos += len(piece)
+    return out
+
+
+def conversation_cut(sim, pieces, bounds):
+    """A peer on a synchronous pipe writes message by message: most grammar items end a delivery."""
+    pts = [b for b in bounds if sim.draw_bool(0.75, "write-ends-here")]
+    return split_at(pieces, pts)
 
 
 def dangerous(prefix, delim, maxlen):
@@ -708,11 +846,16 @@ def run(sim):
         else:
             sim.probe("custom_prefix_network_order")
     mode = sim.draw_weighted([("stream", 4), ("send", 1)], "mode")
-    maxlen = sim.draw_choice(maxlens(kind), "maxlen")
+    lens = maxlens(kind)
+    if kind == "NetstringReceiver" and sim.draw_bool(NETSTRING_ZERO_P, "netstring-maxlen-0"):
+        # MAX_LENGTH 0: only the empty netstring is within the limit
+        lens = lens + [0, 0, 0]
+        sim.probe("netstring_maxlen_zero_possible")
+    maxlen = sim.draw_choice(lens, "maxlen")
     delim = sim.draw_choice(DELIMS, "delimiter") if kind in LINE_KINDS else b""
-    # Known finding (LineOnlyReceiver counts a partially received delimiter
-    # against MAX_LENGTH): most LineOnlyReceiver runs steer clear of its
-    # precondition so that the other clauses get full-length runs; the rest hit it.
+    # Finding (LineOnlyReceiver counted a partially received delimiter against MAX_LENGTH), genuine defect of the tree as
+    # first examined, REPAIRED in /repo e73d511: AVOID_KNOWN_P = 0.1 of the LineOnlyReceiver runs with a multi-byte delimiter
+    # still steer clear of its precondition (kept for dev-time comparison); the rest hit it.
     avoid = False
     if kind == "LineOnlyReceiver" and len(delim) > 1:
         avoid = sim.draw_bool(AVOID_KNOWN_P, "avoid-known")
@@ -720,34 +863,43 @@ def run(sim):
             delim = delim[:1]
     reconf = sim.draw_bool(RECONF_P, "reconf") and not avoid
     companion = sim.draw_bool(COMPANION_P, "companion")
-    script = gen_script(sim, kind, mode, reconf)
+    # the re-entrant callback actions (self-resume, synchronous pipe): see INTN_REENTRY_P for the length-prefixed classes
+    reentry = sim.draw_bool(INTN_REENTRY_P, "intn-reentry") if kind in SPECS else True
+    feed = mode == "stream" and reentry and sim.draw_bool(FEED_P, "feed")
+    script = gen_script(sim, kind, mode, reconf, lens, reentry, feed)
     sim.config = {"kind": kind, "mode": mode, "maxlen": maxlen, "delimiter": repr(delim), "avoid_known": avoid,
-                  "reconf": reconf, "companion": companion, "script": script_config(script)}
+                  "reconf": reconf, "companion": companion, "reentry": reentry, "feed": feed,
+                  "script": script_config(script)}
     cls = make_class(kind, maxlen, delim)
 
     if mode == "send":
-        return run_send(sim, kind, cls, maxlen, delim, script, avoid, reconf, companion)
+        return run_send(sim, kind, cls, maxlen, delim, script, avoid, reconf, companion, lens, reentry)
 
     stream, bounds = gen_stream(sim, kind, maxlen, delim, script, avoid)
     sim.event("stream", kind, maxlen, delim, stream)
     pieces = net.cut(sim, stream, None, bounds)
+    conversation = feed and sim.draw_bool(0.6, "conversation-cut")
+    if conversation:
+        pieces = conversation_cut(sim, pieces, bounds)
     if avoid:
         pieces = merge_dangerous(pieces, delim, maxlen)
     ext_pause_p = sim.draw_choice([0.0, 0.0, 0.15], "ext-pause-p")
     exp, tail = reference(kind, stream, maxlen, delim, script)
 
-    conns = [SplitConn(sim, kind, cls, maxlen, delim, script, pieces, bounds, ext_pause_p, "split", "S")]
+    conns = [SplitConn(sim, kind, cls, maxlen, delim, script, pieces, bounds, ext_pause_p, "split", "S", stream)]
     if companion:
         # a second live connection of the same class: own stream, own script, own reference
-        script2 = gen_script(sim, kind, mode, reconf)
+        script2 = gen_script(sim, kind, mode, reconf, lens, reentry, feed)
         stream2, bounds2 = gen_stream(sim, kind, maxlen, delim, script2, avoid)
         sim.event("stream2", stream2)
         pieces2 = net.cut(sim, stream2, None, bounds2)
+        if conversation:
+            pieces2 = conversation_cut(sim, pieces2, bounds2)
         if avoid:
             pieces2 = merge_dangerous(pieces2, delim, maxlen)
         exp2, tail2 = reference(kind, stream2, maxlen, delim, script2)
         conns.append(SplitConn(sim, kind, cls, maxlen, delim, script2, pieces2, bounds2, ext_pause_p,
-                               "companion", "S2"))
+                               "companion", "S2", stream2))
         sim.probe("companion_connection")
     drive(sim, conns)
     hs = conns[0].h
@@ -788,13 +940,13 @@ class Lane:
         self.cur_max, self.cur_delim = maxlen, delim    # what the sender goes by (follows the script in lockstep)
 
 
-def run_send(sim, kind, cls, maxlen, delim, script, avoid=False, reconf=False, companion=False):
+def run_send(sim, kind, cls, maxlen, delim, script, avoid=False, reconf=False, companion=False, lens=None, reentry=True):
     """A second real instance sends messages with the send method over a Link."""
     top = SPECS[kind].top if kind in SPECS else None
     lanes = [Lane(sim, kind, cls, maxlen, delim, script, "link", sim.draw_int(1, 6, "nmsgs"))]
     interleave = sim.draw_bool(0.5, "interleave")
     if companion:
-        lanes.append(Lane(sim, kind, cls, maxlen, delim, gen_script(sim, kind, "send", reconf), "link2",
+        lanes.append(Lane(sim, kind, cls, maxlen, delim, gen_script(sim, kind, "send", reconf, lens, reentry), "link2",
                           sim.draw_int(1, 6, "nmsgs2")))
         sim.probe("companion_connection")
     last = [None]
@@ -921,5 +1073,11 @@ MUTANTS = [
     "IntNStringReceiver.dataReceived: prefix decoded with int.from_bytes(..., 'little' if fmt[0] == '<' else 'big') : caught (within-limit-rejected:IntNStringReceiver[=H] / [@H] / [@I]:other)",
     "IntNStringReceiver.sendString: prefix built with len(string).to_bytes(self.prefixLength, 'big') instead of pack(structFormat) : caught (within-limit-rejected:IntNStringReceiver[=L] / [<Hxx] / [@I]:other, send mode)",
     "observation (unchanged tree, not checked: LINEONLY_DELIM_RECONF = False): LineOnlyReceiver splits a delivery on the delimiter before calling lineReceived, so a delimiter set inside lineReceived is applied to the rest of the stream only from the next delivery on (b'EOL LF\\r\\none\\ntwo\\n' at once -> 1 line, bytewise -> 3 lines); with the flag on the check reports reference-mismatch:LineOnlyReceiver:obs=line,ref=nothing within ~1000 runs",
-    "candidate FIX LineOnlyReceiver: 'if len(self._buffer) > self.MAX_LENGTH' -> '>= self.MAX_LENGTH + len(self.delimiter)' : check passes (exit 0), 48000 runs",
+    "round 6, re-entrant callbacks - NetstringReceiver._consumePayload: '_state = _PARSING_LENGTH' moved behind _processPayload() (seed C16-r6b: the parser still says 'complete payload waiting' while stringReceived runs) : first SURVIVED (no callback ever re-entered the receiver), caught after adding the synchronous-pipe 'feed' action (reference-mismatch:NetstringReceiver:obs=string,ref=string / ref=nothing / ref=close; ~100 runs)",
+    "LineOnlyReceiver.dataReceived: 'self._buffer = lines.pop(-1)' moved behind the for loop (residue stored after the callbacks) : caught by the feed action (reference-mismatch:LineOnlyReceiver:obs=line,ref=line / ref=exceeded, within-limit-rejected:LineOnlyReceiver:other; < 2000 runs)",
+    "LineReceiver.dataReceived: drop the '_busyReceiving' early return : SURVIVED, equivalent for this property (the loop keeps its whole state in self._buffer, so a nested call simply parses on and the outer loop finds the buffer empty; only the stack depth differs)",
+    "GENUINE DEFECT found, REPAIRED in /repo 520a5fa: IntNStringReceiver.dataReceived was not re-entrant: it stored the WHOLE working buffer in _unprocessed before the loop and every call started at offset 0, so _PauseableMixin.resumeProducing() (-> dataReceived(b'')) called from inside stringReceived, or a nested delivery, handed out again every message of the running delivery: b'\\x00\\x01a\\x00\\x01b\\x00\\x01c' with pause+resume in the callback of b'b' gives a b a b c c; b'\\x00\\x04ping' answered from inside the callback with b'\\x00\\x04pong' gives ping ping pong (reference-mismatch:Int*StringReceiver:obs=string,ref=*, sent-equals-received:Int*StringReceiver, also whole delivery; RecursionError when the application does it for every message).  Share of runs that script it: INTN_REENTRY_P.  The repair: a _busyReceiving flag as in LineReceiver (re-entrant call appends to _unprocessed and returns; the running loop re-reads 'alldata = self._unprocessed' after stringReceived) : check passes with INTN_REENTRY_P = 1.0 (3 x 100000 runs)",
+    "GENUINE DEFECT found, REPAIRED in /repo 39163cd: NetstringReceiver._maxLengthSize: math.log10(self.MAX_LENGTH) raised ValueError for MAX_LENGTH = 0, out of dataReceived, for every input holding a digit - b'0:,' (the one message within the limit) included (receiver-raised:NetstringReceiver:*).  Share of runs that allow it: NETSTRING_ZERO_P.  The repair: 'if self.MAX_LENGTH < 1: return 1' : check passes with NETSTRING_ZERO_P = 0.5",
+    "observations, outside the statement (over-length handlers overridden so that they do NOT close - ASSUMPTIONS[0]; the statement compares up to the first close request and gives no reference for what follows a notification that was not answered with a close; LineReceiver documents that lineLengthExceeded gets 'the remainder of the buffer ... more than one line, or only the initial portion of the line', i.e. what follows is segmentation-dependent by design): IntNStringReceiver returns from dataReceived with _unprocessed = the whole delivery, so the next delivery hands out the earlier messages and the notification again; LineOnlyReceiver's 'return self.lineLengthExceeded(line)' drops the rest of that delivery's lines (b'ab\\nTOOLONG\\ncd\\n' at once: ab; in two pieces: ab, cd)",
+    "repair in /repo e73d511, LineOnlyReceiver: 'if len(self._buffer) > self.MAX_LENGTH' -> '>= self.MAX_LENGTH + len(self.delimiter)' : check passes (exit 0), 48000 runs",
 ]
